@@ -51,6 +51,8 @@ pub fn run(ctx: &Ctx) {
         b.push(Block::new(u_kind_triples(), vec![Cfg::new(0), Cfg::new(X), Cfg::new(R | X | NE), Cfg::new(E | U)], "{}, x, r+x+ne, e+u"));
         b.push(Block::new(u_many(30), k1.clone(), "Lambda<=1"));
         b.push(Block::new(u_nested_rep(), vec![Cfg::new(R), Cfg::new(R | X), Cfg::new(R | G)], "r, r+x, r+g"));
+        b.push(Block::new(u_long_literal_at(), vec![Cfg::new(X), Cfg::new(0), Cfg::new(X | E)], "x, {}, x+e"));
+        b.push(Block::new(crate::props::c05::u_rep_single(&["\u{e9}", "a", "b"], 6), vec![Cfg::new(R | E), Cfg::new(R | E | X), Cfg::new(R | E | U)], "r+e, r+e+x, r+e+u"));
     }
     if thorough {
         let rx = lattice_le(R | X, free, 2);
